@@ -53,6 +53,8 @@ def run_serverlife(scratch, h, testbin, tier):
         out["replays"] += rep["evaluations"]
         out["states"] += r.distinct
         for v in rep["violations"]:
+            if "|harness" in v["sig"]:
+                raise Infra("serverlife replay: the harness could not do its own part: " + v["detail"][:500])
             out["violations"].append(v)
         out["runs"].append(dict(max_conn=m, states=r.distinct, sessions=n, replayed=rep["evaluations"], violations=len(rep["violations"])))
         log("ServerLife MaxConnections=%d: %d states, %d sessions, %d replayed on a real CqlServer over loopback TCP, %d violations" % (
